@@ -314,6 +314,8 @@ pub enum Act {
     Tick,
     /// advance the clock by at most this many ms, stopping at the connection's next timer
     Wait(u64),
+    /// one vectored read into two buffers of these sizes (`poll_read_vectored`)
+    ReadV(usize, usize),
     /// let exactly this many ms pass, polling the connection whenever its timer wakes it
     /// (linear scenarios only: several polls in one step)
     Sleep(u64),
@@ -853,13 +855,16 @@ impl World {
         self.r.take();
         let waker: Waker = mk_waker(&self.r);
         let mut cx = Self::cx(&waker);
-        let mut buf = vec![0u8; n.max(1)];
+        let mut buf = vec![0u8; n];
         let mut rb = ReadBuf::new(&mut buf);
         match Pin::new(rh).poll_read(&mut cx, &mut rb) {
             Poll::Ready(Ok(())) => {
                 let k = rb.filled().len();
                 self.r_parked = Parked::No;
-                if k == 0 {
+                if n == 0 {
+                    // a read into an empty buffer: nothing to report, and not an end-of-stream
+                    rec.app.push(("read", AppRes::Ok(0)));
+                } else if k == 0 {
                     self.reader_eof = true;
                     rec.app.push(("read", AppRes::Eof));
                 } else {
@@ -879,6 +884,56 @@ impl World {
             }
             Poll::Pending => {
                 self.r_parked = Parked::Read(n);
+                rec.app.push(("read", AppRes::Pending));
+            }
+        }
+    }
+
+    fn app_readv(&mut self, a: usize, b: usize, rec: &mut StepRecord) {
+        let Some(rh) = self.reader.as_mut() else { return };
+        self.r.take();
+        let waker: Waker = mk_waker(&self.r);
+        let mut cx = Self::cx(&waker);
+        let mut b1 = vec![0xEEu8; a];
+        let mut b2 = vec![0xEEu8; b];
+        let res = {
+            let mut iov = [std::io::IoSliceMut::new(&mut b1), std::io::IoSliceMut::new(&mut b2)];
+            Pin::new(rh).poll_read_vectored(&mut cx, &mut iov)
+        };
+        match res {
+            Poll::Ready(Ok(k)) => {
+                self.r_parked = Parked::No;
+                if a + b == 0 {
+                    rec.app.push(("read", AppRes::Ok(0)));
+                } else if k == 0 {
+                    self.reader_eof = true;
+                    rec.app.push(("read", AppRes::Eof));
+                } else {
+                    // the first buffer is filled completely before the second one is touched
+                    let all: Vec<u8> = b1.iter().chain(b2.iter()).copied().collect();
+                    if k > a + b {
+                        self.read_ok = false;
+                    }
+                    for (i, byte) in all.iter().take(k).enumerate() {
+                        if *byte != coded(self.read + i as u64, SALT_PEER) {
+                            self.read_ok = false;
+                        }
+                    }
+                    // nothing beyond the reported count was written
+                    if all.iter().skip(k).any(|x| *x != 0xEE) {
+                        self.read_ok = false;
+                    }
+                    self.read += k as u64;
+                    rec.app.push(("read", AppRes::Ok(k)));
+                }
+            }
+            Poll::Ready(Err(e)) => {
+                self.r_parked = Parked::No;
+                self.reader_err = Some(e.to_string());
+                rec.app.push(("read", AppRes::Err(e.to_string())));
+            }
+            Poll::Pending => {
+                self.r_parked = Parked::Read(a + b);
                 rec.app.push(("read", AppRes::Pending));
             }
         }
@@ -1201,7 +1256,7 @@ impl World {
             Act::Write(_) => self.writer.is_some() && self.w_parked == Parked::No && self.writer_err.is_none() && !self.shutdown_called,
             Act::Flush => self.writer.is_some() && self.w_parked == Parked::No && self.writer_err.is_none() && !self.shutdown_called,
             Act::Shutdown => self.writer.is_some() && self.w_parked == Parked::No && !self.shutdown_called && self.writer_err.is_none(),
-            Act::Read(_) => self.reader.is_some() && self.r_parked == Parked::No && !self.reader_eof && self.reader_err.is_none(),
+            Act::Read(_) | Act::ReadV(..) => self.reader.is_some() && self.r_parked == Parked::No && !self.reader_eof && self.reader_err.is_none(),
             Act::DropReader => self.reader.is_some(),
             Act::DropWriter => self.writer.is_some(),
             Act::Deliver(_) | Act::Deliver2(..) | Act::Spurious | Act::Tick | Act::Wait(_) | Act::Sleep(_) => self.done.is_none(),
@@ -1259,6 +1314,7 @@ impl World {
             }
             Act::Write(n) => self.app_write(*n, &mut rec),
             Act::Read(n) => self.app_read(*n, &mut rec),
+            Act::ReadV(a, b) => self.app_readv(*a, *b, &mut rec),
             Act::Flush => self.app_flush(false, &mut rec),
             Act::Shutdown => self.app_flush(true, &mut rec),
             Act::DropReader => {
